@@ -221,9 +221,10 @@ func tagless(t *gen.Tree, i int) bool {
 // non-ASCII letter of 2, 3 and 4 bytes: fields without a tag can carry them.
 var uniKeys = []string{"öl", "é", "ა", "𐐨x", "ärmel", "ω", "ñ_a", "ǆ"}
 
-// drawNames draws bits 40-47 of a container representation.
+// drawNames draws bits 40-47 of a container representation (and the tag
+// options of a struct representation: bits 48-52, see tagopts_test.go).
 func drawNames(t *rapid.T) int {
-	r := 0
+	r := drawTagOpts(t)
 	if rapid.IntRange(0, 2).Draw(t, "gonames") > 0 {
 		r |= rapid.IntRange(0, 15).Draw(t, "fieldnames") << nameShift
 	}
